@@ -303,6 +303,18 @@ PROPS['C12']['level_text'] += (" The frame half of the summary contract of solve
 PROPS['C12']['undecided_clauses'] = ["that the summary contracts hold of the real StochasticGame methods: the FRAME half (nothing of the description is modified) is discharged in this cone (solve@typed and the conditioning methods); the FUNCTIONAL half (the result is a function of the description and the mode) is the static determinism scan of C10 -- linked by hand",
                                      PROPS['C12']['undecided_clauses'][1]]
 
+# ---- the assumed contract of argparse (A-EXT) is tied to the real init_parser declarations by a static obligation
+_GEN_ARGS = {'seed': 'int', 'width': 'int', 'length': 'int', 'max_reward': 'int', 'prob_robot_break': 'float', 'prob_light_break': 'float',
+             'prob_tile_break': 'float', 'prob_loose_tile': 'float', 'force_down': 'bool'}
+for _p in ('C15', 'C17', 'C11'):
+    PROPS[_p]['static'] = list(PROPS[_p].get('static', [])) + [('generator-parser-declares-the-assumed-field-types', ST.parser_declares('roberta_generator', _GEN_ARGS))]
+for _p in ('C16', 'C12'):
+    PROPS[_p]['static'] = list(PROPS[_p].get('static', [])) + [('runner-parser-declares-the-assumed-field-types',
+                                                                ST.parser_declares('conditionalrewards', {'file': 'str', 'log_level': 'str', 'save_results': 'bool'}))]
+
+for _p in ('C08', 'C11'):
+    PROPS[_p]['static'] = list(PROPS[_p].get('static', [])) + [('writers-emit-only-the-pretty-printed-dictionary', ST.writer_tail_idiom('roberta_generator', ['write_robot_A', 'write_robot_B', 'write_robot_C']))]
+
 PROPS['C16']['level_text'] += (" conditionalrewards.main is verified against summaries of the three functions it calls: the batch runs on what was read from the file named by -f, and"
                                " that result is saved under the same name exactly when -s is given (nothing is saved otherwise, nor when the input is refused).")
 PROPS['C08']['level_text'] += " write_robots is verified to hand each writer the caller's board and exactly the probabilities of its game, in parameter order."
